@@ -3,7 +3,7 @@
   Every line is a sequence of space-separated tokens; numbers are decimal integers (a `LegacyDec` travels
   as its raw 10^18-scaled integer, so no decimal parsing happens here); lists carry their length first.
 -/
-import AllianceModel.Msg
+import AllianceModel.Genesis
 namespace Alliance
 namespace Trace
 
@@ -137,9 +137,14 @@ def fields : P AllianceFields := do
   pure { denom := d, denomValid := dv, weight := w, wmin := mn, wmax := mx, takeRate := tr, changeRate := cr, changeIntv := ci }
 
 /-- `O <kind> args… W <withdrawals>` -/
-def op : P (Op × List (ValId × Coins)) := do
+def op : P (XOp × List (ValId × Coins)) := do
   expect "O"
   let k ← tok
+  if k = "reimport" then
+    expect "W"
+    let wd ← listOf do
+      let v ← nat; let cs ← coins; pure (v, cs)
+    return (XOp.reimport, wd)
   let o ← match k with
     | "delegate" => do let a ← nat; let v ← nat; let d ← nat; let x ← int; pure (Op.delegate a v d x)
     | "undelegate" => do let a ← nat; let v ← nat; let d ← nat; let x ← int; pure (Op.undelegate a v d x)
@@ -158,7 +163,7 @@ def op : P (Op × List (ValId × Coins)) := do
   expect "W"
   let wd ← listOf do
     let v ← nat; let cs ← coins; pure (v, cs)
-  pure (o, wd)
+  pure (XOp.op o, wd)
 
 def runP {α} (p : P α) (line : String) : Except String α :=
   match p ((line.splitOn " ").filter (· ≠ "")) with
